@@ -81,6 +81,12 @@ Theorem C09_StrCmpUpto : forall a b, StrCmpUpto a b = CmpUpto a b.
 Proof. exact StrCmpUpto_eq. Qed.
 Print Assumptions C09_StrCmpUpto.
 
+(** hence StrCmpUpto has CmpUpto's meaning (in the model; see the remark above) *)
+Theorem C09_strcmpupto : forall a b, bytes_ok a ->
+  StrCmpUpto a (encB b) = Some (cmp_sign (bits_cmp (upto a b) b)).
+Proof. exact StrCmpUpto_encB. Qed.
+Print Assumptions C09_strcmpupto.
+
 (** cmpBytes is bytes.Compare on both sides of its 8-byte switch, on every call
     whose manual loop stays in range (all calls CmpUpto makes) … *)
 Theorem C09_cmpBytes : forall a b, (length a <= length b)%nat \/ 8 <= zlen a ->
@@ -99,6 +105,12 @@ Theorem C09_len_new : forall s f t, bytes_ok s -> 0 <= f <= t -> t <= 8 * zlen s
   match New s f t with Some e => Len e | None => None end = Some (spec_Len s f t).
 Proof. exact Len_New. Qed.
 Print Assumptions C09_len_new.
+
+(** … whose value is to - 8*floor(from/8) *)
+Theorem C09_len_new_value : forall s f t, bytes_ok s -> 0 <= f <= t -> t <= 8 * zlen s ->
+  match New s f t with Some e => Len e | None => None end = Some (t - 8 * (f / 8)).
+Proof. exact Len_New_value. Qed.
+Print Assumptions C09_len_new_value.
 
 Theorem C09_cmp_new : forall s1 f1 t1 s2 f2 t2,
   bytes_ok s1 -> 0 <= f1 <= t1 -> t1 <= 8 * zlen s1 ->
